@@ -21,9 +21,12 @@ Pieces == <<
 
 \* directory layouts: which directories contain a regex-assembly directory
 A == <<"crs">>   B == <<"crs", "sub", "inner">>
-Layouts == { {A}, {A, B}, {B}, {} }
+\* a root that lives below the regex-assembly directory of another root, and one below a
+\* directory whose name merely starts with regex-assembly
+C == <<"crs", "regex-assembly", "fixtures", "inner">>   D == <<"regex-assembly-old", "crs">>
+Layouts == { {A}, {A, B}, {B}, {}, {A, C}, {D}, {A, D} }
 Starts  == { <<>>, A, B, <<"crs", "rules">>, <<"crs", "sub">>, <<"crs", "sub", "inner", "deep", "er">>,
-             <<"other">>, <<"other", "x">> }
+             <<"other">>, <<"other", "x">>, C, C \o <<"rules">>, <<"crs", "regex-assembly", "include">>, D, D \o <<"util", "a">> }
 
 Init == /\ stage = 0 /\ arg = ""
         /\ IF Mode = "root" THEN lay \in Layouts /\ start \in Starts /\ withD \in BOOLEAN
